@@ -77,6 +77,20 @@ def gen_cases(tier, seed):
         yield dict(i=500 + j, kind="pair", f=f, g=g, seed=common.case_seed(seed, "C03p", j), variant=j % 2)
         if tier != "quick" or j >= 400:  # thorough: both cell variants for every pair; quick: for the pinned pairs
             yield dict(i=50000 + j, kind="pair", f=f, g=g, seed=common.case_seed(seed, "C03p", j), variant=(j + 1) % 2)
+    # results after an in-place edit of the topology (public attributes / add_bond) must equal the results on a topology
+    # that was built that way from the start: nothing derived from the topology may be remembered across the edit
+    muts = ["rename_atoms", "rename_residues", "change_elements", "add_bonds"]
+    if tier == "quick":
+        rngm = common.rng_for("C03mut", seed)
+        mcases = [(pure[int(rngm.integers(len(pure)))], muts[k % 4]) for k in range(120)]  # (documented in-place functions excluded)
+        mcases += [(g, mu) for g in ("compute_dssp", "kabsch_sander", "baker_hubbard", "compute_chi1", "compute_phi", "compute_contacts(closest-heavy)",
+                                    "compute_contacts(ca)", "shrake_rupley", "compute_rg", "compute_center_of_mass", "select", "density", "remove_solvent",
+                                    "image_molecules(inplace=False)", "make_molecules_whole(inplace=False)", "save(pdb)", "save(h5)", "hash")
+                   for mu in muts]
+    else:
+        mcases = [(g, mu) for g in pure for mu in muts for _ in range(2)]
+    for j, (g, mu) in enumerate(mcases):
+        yield dict(i=80000 + j, kind="mutate", g=g, mutation=mu, seed=common.case_seed(seed, "C03m", j), variant=j % 2)
     for i in range(nh):
         rng = common.rng_for("C03", seed, i)
         yield dict(i=100000 + i, kind="history", seed=common.case_seed(seed, "C03", i), n_frames=int(rng.integers(3, 41)),
@@ -266,6 +280,8 @@ def run_case(case, ctx):
         return run_immutable(case, ctx)
     if case["kind"] == "pair":
         return run_pair(case, ctx)
+    if case["kind"] == "mutate":
+        return run_mutate(case, ctx)
     import mdtraj as md
     rng = common.rng_for("C03h", case["seed"])
     sym = case.get("sym", True)
@@ -675,6 +691,63 @@ def run_pair(case, ctx):
                       f"{g}(t) after {f}(t) differs from {g} on a pristine copy of t (cell variant {'skewed-unreduced' if case['variant'] % 2 else 'orthorhombic'})")
     else:
         ctx.ok("immutable.observational")
+
+
+def _mutate_topology(top, mutation, seed):
+    """deterministic in-place edit through public attributes / API; identical on equal topologies"""
+    from mdtraj.core import element as E
+    rng = common.rng_for("C03mutation", seed)
+    atoms = list(top.atoms)
+    if mutation == "rename_atoms":
+        swap = {"CA": "CX", "CG1": "CG2", "CG2": "CG1", "OG1": "OGx", "N": "Nx", "O": "Ox", "H": "HN", "CB": "CBx"}
+        for res in top.residues:
+            if rng.random() < 0.35:
+                for a in res.atoms:
+                    if a.name in swap and rng.random() < 0.6:
+                        a.name = swap[a.name]
+    elif mutation == "rename_residues":
+        for res in top.residues:
+            if rng.random() < 0.3:
+                res.name = {"ALA": "GLY", "GLY": "ALA", "LYS": "NLE", "HOH": "SOL", "PRO": "ALA"}.get(res.name, "PRO" if rng.random() < 0.3 else "UNK")
+    elif mutation == "change_elements":
+        for a in atoms:
+            if rng.random() < 0.15:
+                a.element = {"C": E.sulfur, "N": E.oxygen, "O": E.nitrogen, "H": E.carbon, "S": E.carbon}.get(a.element.symbol, E.carbon)
+    elif mutation == "add_bonds":
+        for _ in range(12):
+            i, j = (int(x) for x in rng.integers(0, len(atoms), 2))
+            if i != j:
+                top.add_bond(atoms[i], atoms[j])
+
+
+def run_mutate(case, ctx):
+    rng = common.rng_for("C03m", case["seed"])
+    t = _protein(rng, case["variant"])
+    pristine = _fresh(t)
+    g, mu = case["g"], case["mutation"]
+    _mutate_topology(pristine.topology, mu, case["seed"])  # edited before anything ever looked at it
+    try:
+        ref = _result_digest(g, pristine)
+        ref_err = None
+    except Exception as e:
+        ref, ref_err = None, type(e).__name__
+    try:
+        _result_digest(g, t)  # first call: whatever gets remembered is remembered now
+    except Exception as e:
+        ctx.skip("immutable.topology-edit", f"{g} raised {type(e).__name__} on the probe trajectory")
+        return
+    _mutate_topology(t.topology, mu, case["seed"])
+    try:
+        got, got_err = _result_digest(g, t), None
+    except Exception as e:
+        got, got_err = None, type(e).__name__
+    ctx.observe("topology_edit", mu)
+    if (got, got_err) != (ref, ref_err):
+        ctx.violation("immutable.topology-edit", f"{g}:result-after-in-place-{mu}-differs-from-fresh-topology",
+                      f"{g}(t) after an in-place {mu} of t.topology ({'raises ' + got_err if got_err else 'value'}) differs from {g} on a trajectory whose "
+                      f"topology was edited the same way before its first use ({'raises ' + ref_err if ref_err else 'value'})")
+    else:
+        ctx.ok("immutable.topology-edit")
 
 
 def run_immutable(case, ctx):
